@@ -377,6 +377,34 @@ func TestZZVerifC13Baselines(t *testing.T) {
 
 // ------------------------------------------------------------------ conc
 
+// zzC13Deg spells the degenerate strings that Migrate.tla only names
+// ("deg:<name>"): strings a step that looks into a string might trip over.
+var zzC13Deg = map[string]string{
+	"blank":      "  ",
+	"tab":        "\t",
+	"hash":       "#",
+	"lbr":        "[",
+	"lbrs":       "[/",
+	"lbrss":      "[//]",
+	"scheme":     "://",
+	"quicnohost": "quic://",
+	"padded":     " 127.0.0.1 ",
+}
+
+// zzC13DegList is the value of "deglist:": a list of degenerate strings.
+func zzC13DegList() (l []any) {
+	for _, s := range []string{
+		"", " ", "  ", "\t", " \t ", "\n", "#", " #", "\t# c", "#c", "[", "[/", "[//]", "[/]", "[/x/", "[/x/]",
+		"[/x/] ", "[/x/]#", "[/x/]quic://", "[/x/]quic://8.8.8.8", "[/x/] quic://8.8.8.8", "://", "quic://",
+		"quic://[::1", "quic://a:b:c", "quic://:784", " quic://8.8.8.8", "quic://8.8.8.8 ", "quic:// ", "quic",
+		" 127.0.0.1 ", ".", " .", ". ",
+	} {
+		l = append(l, s)
+	}
+
+	return l
+}
+
 // zzC13DevValue returns the concrete value of a deviation kind.
 func zzC13DevValue(key, kind string, old any) (v any, del bool) {
 	if strings.HasPrefix(kind, "perm") || kind == "recs" {
@@ -429,7 +457,9 @@ func zzC13DevValue(key, kind string, old any) (v any, del bool) {
 	case "badelem":
 		return []any{1.5, nil}, false
 	case "oddstrs":
-		return []any{"", "#c", "[/x/", "[/x/]quic://8.8.8.8", "quic://[::1", "quic://a:b:c", "://", "quic://"}, false
+		return zzC13DegList(), false
+	case "blank", "tab", "hash", "lbr", "lbrs", "lbrss", "scheme", "quicnohost", "padded":
+		return zzC13Deg[kind], false
 	case "dotlist":
 		return []any{".", "a", 1.5}, false
 	default:
@@ -835,6 +865,15 @@ func zzC13Eval(val string, in yobj) (v any, err error) {
 	switch tag {
 	case "any":
 		return zzC13Any{}, nil
+	case "deg":
+		str, has := zzC13Deg[rest]
+		if !has {
+			return nil, fmt.Errorf("unknown degenerate string %q", val)
+		}
+
+		return str, nil
+	case "deglist":
+		return zzC13DegList(), nil
 	case "src":
 		var ok bool
 		v, ok = zzC13Get(in, rest)
@@ -1279,7 +1318,7 @@ func zzC13Check(vec *zzC13Vec, base map[string]zzC13TV) (out zzC13Out) {
 		first := ""
 		for i, diffShape := range vec.Oks {
 			shape := diffShape
-			if vec.Kind == "vec" || vec.Kind == "fam" {
+			if vec.Kind == "vec" || vec.Kind == "fam" || vec.Kind == "trace" {
 				shape = make(map[string]zzC13TV, len(base)+len(diffShape))
 				for k, c := range base {
 					shape[k] = c
@@ -1446,7 +1485,12 @@ func TestZZVerifC13Render(t *testing.T) {
 // them with Migrate.tla's own operators (and checks its invariants on them),
 // and the admissible sets it returns are replayed by TestZZVerifC13Replay.
 func TestZZVerifC13Trace(t *testing.T) {
-	w := zzNewWriter(t, "VERIF_OUT")
+	out := "VERIF_OUT"
+	if zzGetenv("VERIF_OUT2") != "" {
+		// one go test run together with TestZZVerifC13Baselines
+		out = "VERIF_OUT2"
+	}
+	w := zzNewWriter(t, out)
 	defer w.close()
 
 	rng := rand.New(rand.NewSource(zzSeed()))
@@ -1456,7 +1500,8 @@ func TestZZVerifC13Trace(t *testing.T) {
 	}
 
 	kinds := []string{"absent", "null", "float", "str", "empty", "emptylist", "zero", "seven", "true", "false",
-		"neg", "p65535", "p65536", "huge", "estr", "v6", "hostport", "long", "badelem", "oddstrs", "dotlist"}
+		"neg", "p65535", "p65536", "huge", "estr", "v6", "hostport", "long", "badelem", "oddstrs", "dotlist",
+		"blank", "tab", "hash", "lbr", "lbrs", "lbrss", "scheme", "quicnohost", "padded"}
 	for i := 0; i < n; i++ {
 		v := rng.Intn(zzC13Last + 1)
 		doc, err := zzC13Golden(v)
